@@ -448,6 +448,9 @@ PROPS["C09"]["assumptions"] = ["children are mock runnables honouring the Runnab
                                "CompLts is validated against the code by the skeleton ties of the composite package and by the "
                                "trace acceptor over every history of the composite leg (accepted = a behaviour of the model); its "
                                "atomic steps are the critical sections of runner.go/reload.go"]
+for _p in ("C09", "C10", "C11"):
+    PROPS[_p]["lean_modules"].append("GoSup.Tie.Lts")
+    PROPS[_p]["ties"] = list(PROPS[_p].get("ties", [])) + ["GoSup.Tie.Lts.tie_comp_table"]
 PROPS["C11"]["lean_modules"].append("GoSup.Props.C09L")
 PROPS["C11"]["theorems"] += ["GoSup.Props.C09L.c11_restart_stops_first", "GoSup.Props.C09L.c09_one_live_generation"]
 PROPS["C11"]["level_text"] += (" Concurrent model CompLts: in every interleaving a restart reload boots the new children only after "
@@ -506,6 +509,9 @@ PROPS["C12"]["level_text"] = (
     "Reload() is inside its readiness probe; while Run waits in its select, no restart is under way and the state is not Error the "
     "current instance is listening; finding C12-F1 is a reachable state of the model. Model assumptions: the probe succeeds only "
     "while the context is live and the awaited instance listens; an instance fails only when it binds. " + PROPS["C12"]["level_text"])
+for _p in ("C12", "C13"):
+    PROPS[_p]["lean_modules"].append("GoSup.Tie.Lts")
+    PROPS[_p]["ties"] = list(PROPS[_p].get("ties", [])) + ["GoSup.Tie.Lts.tie_http_table"]
 PROPS["C12"]["assumptions"].append("HttpLts is validated against the code by the skeleton ties of the httpserver package and by the "
                                    "trace acceptor over every history of the httpsrv leg without a foreign listener")
 PROPS["C13"]["level_text"] = PROPS["C13"].get("level_text", "") + (
